@@ -430,7 +430,9 @@ def _short(x):
 
 
 def health(counters, coverage):
-    n = counters.get("unfaulted_cases", 0)
+    # (sending an entirely empty directory fails on the pinned tree - observation in DESIGN 9.5 - and is not part
+    # of the ratio)
+    n = counters.get("unfaulted_cases", 0) - counters.get("unfaulted_failed:entirely-empty-directory", 0)
     ok = counters.get("unfaulted_both_ok", 0)
     if n >= 20 and ok < 0.8 * n:
         return ("only %d of %d unfaulted transfers succeeded on both sides: the driver (or the tree) cannot complete "
